@@ -16,6 +16,8 @@ def make_param(d):
         kw["default"] = VAL[d["default"]]
     if d["bounds"] != "U" and d["ty"] in ("Number", "Integer"):
         kw["bounds"] = VAL[d["bounds"]]
+    if d.get("incl", "U") != "U" and d["ty"] in ("Number", "Integer"):
+        kw["inclusive_bounds"] = (False, False)
     if d["doc"] != "U":
         kw["doc"] = VAL[d["doc"]]
     if d["constant"] != "U":
@@ -87,6 +89,7 @@ def replay(beh, opts):
             p = cls.param["x"]
             got = {"ty": type(p).__name__, "default": tok(p.default),
                    "bounds": {None: "None", (0, 2): "b02", (4, 6): "b46"}.get(getattr(p, "bounds", None), repr(getattr(p, "bounds", None))),
+                   "incl": "ii" if getattr(p, "inclusive_bounds", (True, True)) == (True, True) else "xx",
                    "doc": "None" if p.doc is None else p.doc, "constant": "T" if p.constant else "F",
                    "an": "T" if p.allow_None else "F", "inst": "T" if p.instantiate else "F"}
             for k, v in got.items():
